@@ -78,6 +78,8 @@ class SandboxCoverageTracer(SandboxBasicTracer):
         self.p.start()
         #coverage.python.get_python_source = _get_source_correctly
         self.coverage = coverage.Coverage()
+        # (coverage installs its own trace function and leaves none behind)
+        self._previous_trace = sys.gettrace()
         self.coverage.start()
 
     def __exit__(self, exc_type, exc_val, traceback):
@@ -99,6 +101,11 @@ class SandboxCoverageTracer(SandboxBasicTracer):
 
         self.p.stop()
         self.original = None
+        # coverage's tracer takes itself - and whatever trace function is
+        # installed by then - away at the next event of a frame it was tracing.
+        # This frame is the last such one: it stops being traced first.
+        sys._getframe().f_trace = None
+        sys.settrace(self._previous_trace)
 
     
     @property
